@@ -114,9 +114,9 @@ type seen struct {
 }
 
 var (
-	hmu      sync.Mutex
-	invoked  = map[string][]seen{} // by X-Id
-	wantHdrs = map[string][]string{}
+	hmu        sync.Mutex
+	invoked    = map[string][]seen{} // by X-Id
+	wantHdrs   = map[string][]string{}
 	recentKeys []string
 )
 
@@ -197,6 +197,9 @@ func httpExchange(w *world, k int) {
 	var keys []string
 	for i := 0; i < r.Intn(9); i++ {
 		key := "X-" + token(r, 1+r.Intn(10))
+		if strings.EqualFold(key, "X-Id") {
+			continue // would overwrite the request's identity (seen once in 36 000 thorough exchanges)
+		}
 		hdrs[key] = token(r, 1+r.Intn(30))
 		keys = append(keys, key)
 	}
@@ -317,6 +320,75 @@ func httpExchange(w *world, k int) {
 	}
 	if k < 2 {
 		run.Sample(rep)
+	}
+}
+
+// httpBurst: several bundled clients connect at the same (virtual) instant, so that the
+// server finds more than one established connection waiting in its accept queue; each
+// client must get the reply its own request produced, and each handler runs once.
+func httpBurst(w *world, k int) {
+	r := fw.NewRand(run.Seed, "C20", "burst", k)
+	n := 2 + r.Intn(5)
+	type one struct {
+		id, path, body, result string
+		err                    error
+	}
+	reqs := make([]*one, n)
+	for i := range reqs {
+		reqs[i] = &one{id: fmt.Sprintf("burst%d-%d", k, i), path: paths[r.Intn(len(paths))], body: bodyText(r, r.Intn(300))}
+		hmu.Lock()
+		wantHdrs[reqs[i].id] = nil
+		hmu.Unlock()
+	}
+	rep := map[string]interface{}{"k": k, "clients": n}
+	var wg sync.WaitGroup
+	ok := within(120*time.Second, func() {
+		for _, q := range reqs {
+			q := q
+			wg.Add(1)
+			go func() {
+				defer wg.Done()
+				cli, err := http.NewClient("http://10.0.0.1:8080" + q.path)
+				if err != nil {
+					q.err = err
+					return
+				}
+				cli.SetMethod("POST")
+				cli.SetHeaders(map[string]string{"X-Id": q.id})
+				cli.SetData(q.body)
+				time.Sleep(10 * time.Millisecond)
+				q.result, q.err = cli.GetResult()
+				time.Sleep(5 * time.Millisecond)
+				cli.GetConnection().Close()
+			}()
+		}
+		wg.Wait()
+	})
+	time.Sleep(20 * time.Millisecond)
+	run.Count("http_burst_rounds", 1)
+	run.Count("http_burst_clients", int64(n))
+	run.Case(fw.Hash("burst", n), true)
+	if !ok {
+		run.Violation("C20/http/burst-no-answer", fmt.Sprintf("%d clients connected at the same instant: not all of them were answered within 120 s of virtual time", n), rep)
+		return
+	}
+	for _, q := range reqs {
+		hmu.Lock()
+		calls := invoked[q.id]
+		hmu.Unlock()
+		switch {
+		case q.err != nil:
+			run.Violation("C20/http/burst-client-error", fmt.Sprintf("%d clients at once: client %s failed with %v", n, q.id, q.err), rep)
+		case len(calls) != 1:
+			run.Violation("C20/http/burst-handler-invocations", fmt.Sprintf("%d clients at once: the handler ran %d times for request %s", n, len(calls), q.id), rep)
+		case calls[0].body != q.body:
+			run.Violation("C20/http/burst-request-body", fmt.Sprintf("%d clients at once: request %s carried %q, the handler saw %q", n, q.id, clip(q.body), clip(calls[0].body)), rep)
+		case q.result != replyBody(q.id):
+			run.Violation("C20/http/burst-response-body", fmt.Sprintf("%d clients at once: client %s got %q, its handler produced %q", n, q.id, clip(q.result), replyBody(q.id)), rep)
+		default:
+			continue
+		}
+		return
 	}
 }
 
@@ -546,18 +618,27 @@ func wsMasked(w *world, k int) {
 			default:
 				copy(mk[:], r.Bytes(4))
 			}
+			// one message in four goes out unmasked on the same connection ("masked or not"):
+			// what the previous frame's key was must not matter
+			mbit := byte(0x80)
+			if r.Chance(1, 4) {
+				mbit, mk = 0, [4]byte{}
+				run.Count("ws_unmasked_messages_among_masked", 1)
+			}
 			fr := []byte{0x81}
 			switch {
 			case n <= 125:
-				fr = append(fr, 0x80|byte(n))
+				fr = append(fr, mbit|byte(n))
 			case n <= 65535:
-				fr = append(fr, 0x80|126, byte(n>>8), byte(n))
+				fr = append(fr, mbit|126, byte(n>>8), byte(n))
 			default:
 				var l [8]byte
 				binary.BigEndian.PutUint64(l[:], uint64(n))
-				fr = append(append(fr, 0x80|127), l[:]...)
+				fr = append(append(fr, mbit|127), l[:]...)
 			}
-			fr = append(fr, mk[:]...)
+			if mbit != 0 {
+				fr = append(fr, mk[:]...)
+			}
 			for j, b := range m {
 				fr = append(fr, b^mk[j%4])
 			}
@@ -632,8 +713,10 @@ func child(t *testing.T) {
 		time.Sleep(50 * time.Millisecond)
 		for k := lo; k < hi && run.Violations() < 4; k++ {
 			switch k % 6 {
-			case 0, 1, 2, 3:
+			case 0, 1, 2:
 				httpExchange(w, k)
+			case 3:
+				httpBurst(w, k)
 			case 4:
 				wsBundled(w, k)
 			case 5:
